@@ -512,7 +512,7 @@ KERNELS = [
          params=[('nsteps', 'Int'), ('start_step', 'Int'), ('T', 'Int'), ('accepted', 'Bool'), ('xi', 'Rat'),
                  ('g', 'Rat'), ('delta', 'Rat'), ('sigma', 'Rat')], ret='Rat',
          bind={'self.nsteps': 'nsteps', 'self.start_step': 'start_step', 'self.adaptation_duration': 'T',
-               'dk ** (-self.adaptation_decay) - 0.1': 'g', "chain.acceptance[-1]['accepted']": 'accepted',
+               'dk ** (-self.adaptation_decay) - self._decay_const': 'g', "chain.acceptance[-1]['accepted']": 'accepted',
                'self.target_rate': 'xi', 'self.deltas': 'delta', 'self._std': 'sigma'},
          types={'lzidx': 'Bool'}, skip=['self._update_proposal()'], result='sigma'),
     dict(name='atUpdate', file='epsie/proposals/normal.py', cls='ATAdaptiveSupport', func='_update',
